@@ -66,7 +66,13 @@ def eval(
 
 def load(path: Union[str, DDSPath, pathlib.Path]) -> Any:
     path_ = DDSPathUtils.create(path)
-    key = _store().fetch_paths([path_]).get(path_)
+    key: Optional[PyHash]
+    if _eval_ctx is not None and path_ in _eval_ctx.requested_paths:
+        # The path is kept by the evaluation in progress: it is only committed to the store when the
+        # evaluation ends, so serve the blob that this evaluation assigned to it.
+        key = _eval_ctx.requested_paths[path_]
+    else:
+        key = _store().fetch_paths([path_]).get(path_)
     if key is None:
         raise DDSException(f"The store {_store()} did not return path {path_}")
     else:
